@@ -50,7 +50,7 @@ class Contract:
     def __init__(self, fq, *, prop, types=None, result=None, requires=(), ensures=None, raises=None,
                  modifies=(), loops=None, locals=None, calls=None, globals=None, classes=None, ghost=None,
                  covers=None, inline=(), verify=True, trusted=False, note="", self_type=None, xensures=None,
-                 lemmas=(), findings=None, entry=None, pure=False, havoc_result=True, specfuns=None, ghost_update=None, ghost_havoc=None, watch=None, optional=False, yield_hook=None, parallel=False, reveal=(), call_entry=None):
+                 lemmas=(), findings=None, entry=None, pure=False, havoc_result=True, specfuns=None, ghost_update=None, ghost_havoc=None, watch=None, optional=False, yield_hook=None, parallel=False, reveal=(), call_entry=None, mutates=()):
         self.fq = fq
         self.prop = prop
         self.types = dict(types or {})
@@ -94,6 +94,7 @@ class Contract:
         self.yield_hook = yield_hook
         self.parallel = parallel     # many paths: explore decision subtrees in forked workers
         self.call_entry = call_entry   # hook(run, callee_frame) run at call sites before the ensures are assumed (ghost set-up)
+        self.mutates = set(mutates)  # container parameters the function is MEANT to change in place (all others are the caller's objects: frame obligation)
         self.reveal = set(reveal)    # opaque predicates whose definition this unit's own proof may use (SpecCtx.opaque)
 
 
